@@ -19,6 +19,8 @@ import (
 	"encoding/pem"
 	"flag"
 	"fmt"
+	"google.golang.org/grpc/codes"
+	"google.golang.org/grpc/status"
 	"math/big"
 	"net"
 	"os"
@@ -140,6 +142,8 @@ func histName(h []hop) string {
 		} else if o.kind == "updjson" {
 			_, v := jsonAt(i)
 			p = append(p, fmt.Sprintf("update(%s=deprecated JSON value %q)", paths[o.path].name, v))
+		} else if o.kind == "drop" {
+			p = append(p, "TARGET DROPS THE STREAM (collector reconnects; later sessions are stamped EARLIER than this one, which ran an hour ahead of the collector's clock)")
 		} else if o.kind == "replace" {
 			_, v := valueAt(i)
 			p = append(p, fmt.Sprintf("replace(delete a + update %s=%T %v in one notification)", paths[o.path].name, v, v))
@@ -168,6 +172,10 @@ func model(h []hop) map[string]string {
 		if o.kind == "updjson" {
 			_, v := jsonAt(i)
 			m[key] = render(v)
+			continue
+		}
+		if o.kind == "drop" {
+			m = map[string]string{} // the collector resets the target: the new session starts from nothing
 			continue
 		}
 		if o.kind == "replace" {
@@ -216,6 +224,7 @@ type targetServer struct {
 	// collector and received its sync, so that every operation is relayed live)
 	gates map[string]chan struct{}
 	once  map[string]*sync.Once
+	sess  map[string]int // sessions started per target
 }
 
 func (s *targetServer) open(name string) {
@@ -251,8 +260,45 @@ func (s *targetServer) Subscribe(stream pb.GNMI_SubscribeServer) error {
 			return nil
 		}
 	}
-	ts := int64(1000)
+	// a history may contain "drop" hops: each Subscribe call plays the next
+	// segment; after every segment but the last the stream is ended with an error
+	s.mu.Lock()
+	if s.sess == nil {
+		s.sess = map[string]int{}
+	}
+	sn := s.sess[name]
+	s.sess[name]++
+	s.mu.Unlock()
+	segStart, segEnd, seg, segs := 0, len(h), 0, 1
+	for _, o := range h {
+		if o.kind == "drop" {
+			segs++
+		}
+	}
+	if sn >= segs {
+		sn = segs - 1
+	}
 	for i, o := range h {
+		if o.kind != "drop" {
+			continue
+		}
+		if seg == sn {
+			segEnd = i
+			break
+		}
+		seg++
+		segStart = i + 1
+	}
+	last := sn == segs-1
+	ts := int64(1000)
+	if segs > 1 {
+		// earlier sessions run further ahead of the collector's clock
+		ts = time.Now().UnixNano() + int64(segs-1-sn)*int64(time.Hour) + 1000
+	}
+	for i, o := range h {
+		if i < segStart || i >= segEnd {
+			continue
+		}
 		ts++
 		ps := paths[o.path]
 		n := &pb.Notification{Timestamp: ts}
@@ -280,6 +326,10 @@ func (s *targetServer) Subscribe(stream pb.GNMI_SubscribeServer) error {
 		// value, so back-to-back operations would hide a relay that drops the
 		// later one). Sensitivity only: no verdict depends on this pause.
 		time.Sleep(50 * time.Millisecond)
+	}
+	if !last {
+		time.Sleep(50 * time.Millisecond)
+		return status.Error(codes.Unavailable, "scripted stream drop")
 	}
 	ts++
 	stream.Send(&pb.SubscribeResponse{Response: &pb.SubscribeResponse_Update{Update: &pb.Notification{Timestamp: ts, Update: []*pb.Update{{Path: &pb.Path{Elem: []*pb.PathElem{el(sentinel)}}, Val: &pb.TypedValue{Value: &pb.TypedValue_BoolVal{BoolVal: true}}}}}}})
@@ -580,7 +630,12 @@ func (r *rig) cliForms(caddr, target, hn string, want map[string]string, withCLI
 			}
 			// "single" display prints in arrival order, which is not defined:
 			// compare as a sorted set of lines
-			lines := strings.Split(strings.TrimSpace(string(o)), "\n")
+			// (trailing blanks are trimmed per line: an empty string value prints
+			// as "path, " and may or may not be the last line printed)
+			lines := strings.Split(strings.Trim(string(o), "\n"), "\n")
+			for i := range lines {
+				lines[i] = strings.TrimRight(lines[i], " \r")
+			}
 			if dt == "single" {
 				sort.Strings(lines)
 			}
@@ -693,6 +748,34 @@ func main() {
 		nb++
 		if len(r.vios) > 0 {
 			break
+		}
+	}
+	// reconnect histories: the target drops its stream after a first session
+	// that ran an hour ahead of the collector's clock and comes back with a
+	// different state stamped earlier; the client must end up with the second
+	// session's state only
+	if len(r.vios) == 0 && *replay == "" {
+		l1, l2 := 1, 1
+		if *tier == "thorough" {
+			l1 = 2
+		}
+		var rh [][]hop
+		for _, h1 := range histories(l1) {
+			for _, h2 := range histories(l2) {
+				if len(h1) == 0 {
+					continue
+				}
+				rh = append(rh, append(append(append([]hop{}, h1...), hop{"drop", 0}), h2...))
+			}
+		}
+		hs = append(hs, rh...) // for replay-file lookup by name
+		for from := 0; from < len(rh) && len(r.vios) == 0; from += batch {
+			to := from + batch
+			if to > len(rh) {
+				to = len(rh)
+			}
+			r.runBatch(nb, rh[from:to], nb%2 == 1, map[int]bool{0: true})
+			nb++
 		}
 	}
 	// single-target collector configuration
